@@ -321,6 +321,7 @@ func buildHTTPEnv(r *hx.Rand, method string, pq bool, pv string, po bool, pe str
 	}
 	e.Spec.RawQuery = strings.Join(out, "&")
 	e.Spec.ContentType = hx.Pick(r, mediaSpellings[media])
+	e.Spec.Feats = hx.Pick(r, featChoices)
 	if media == "graphql" && body != "bad" {
 		e.Spec.Body = hx.Pick(r, queryTexts)
 		// the abstract JSON outcome of that body (not consulted on this branch)
@@ -413,6 +414,7 @@ type WSEnv struct {
 	Query       string `json:"query"`
 	OpName      string `json:"op_name"`
 	Vars        MapAbs `json:"vars"`
+	Feats       string `json:"feats,omitempty"` // the principal's features on the upgrade request
 }
 
 func kindAtom(kind string) string {
@@ -438,7 +440,7 @@ var undecodableFrames = []string{"{", "", "[]", `"x"`, "nul", `{"type":5}`, `{"i
 var badPayloads = []string{"[]", `"x"`, "5", `{"query":5}`, `{"variables":[]}`, `{"variables":"x"}`, `{"operationName":{}}`, `{"variables":{"a":1e400}}`, "true", `{"query":["{a}"]}`, `{"operationName":1}`}
 
 func buildWSEnv(r *hx.Rand, kind string, didInit bool, class string) WSEnv {
-	e := WSEnv{Kind: kind, DidInit: didInit, Vars: MapAbs{Class: "null"}}
+	e := WSEnv{Kind: kind, DidInit: didInit, Vars: MapAbs{Class: "null"}, Feats: hx.Pick(r, featChoices)}
 	if class == "undecodable" {
 		e.Undecodable = true
 		e.Frame = hx.Pick(r, undecodableFrames)
